@@ -159,7 +159,14 @@ func RunBatch(run *report.Run, env *Env, states []BState, chunk int) *BatchStats
 				st.Counters[k] += v
 			}
 			for _, v := range r.Violations {
-				run.Violate(&report.Violation{Attrs: mergeAttrs(s.Attrs, v.Attrs), State: s.ID, Input: v.Input, Observed: v.Observed, Expected: v.Expected,
+				sa := map[string]string{}
+				for k, x := range s.Attrs {
+					if k == "kind" {
+						k = "skind" // the cell's schema kind; "kind" is the violation kind
+					}
+					sa[k] = x
+				}
+				run.Violate(&report.Violation{Attrs: mergeAttrs(sa, v.Attrs), State: s.ID, Input: v.Input, Observed: v.Observed, Expected: v.Expected,
 					Detail: map[string]any{"job": s.Gen, "pair": s.Pair, "prop": s.Prop, "payload": s.Payload, "driver": v.Detail}})
 			}
 			for _, smp := range r.Samples {
